@@ -67,6 +67,7 @@ def gen_prog(rng, name="p", depth=0, max_stmts=8, fid_base=0, p_flag=0.2, p_sub=
     stmts = []
     vinfo = []
     subs = []
+    same_name_mode = False
     nfun = rng.randint(1, 4)  # functions are reused across call sites
     funs = []
     for j in range(nfun):
@@ -84,6 +85,19 @@ def gen_prog(rng, name="p", depth=0, max_stmts=8, fid_base=0, p_flag=0.2, p_sub=
             sub_active = rng.random() < max(p_flag, 0.3) and allow_flags
             sub = gen_prog(rng, name="%s_s%d" % (name, len(subs)), depth=depth + 1, max_stmts=4, p_flag=p_flag, p_sub=p_sub * 0.6,
                            allow_flags=allow_flags and not sub_active, ctr=ctr)
+            # where the nested describing function is defined: at module level, inside a function, or in a class
+            # body; two nested DAGs may share their __name__ while living in different scopes
+            scope = random.Random(rng.getrandbits(30))
+            if not subs:
+                same_name_mode = scope.random() < 0.3  # every nested DAG of this program is called "prep"
+            sc = 0.5 if same_name_mode else scope.random()
+            if sc < 0.25:
+                sub["qualname"] = "mk%d.<locals>.%s" % (len(subs), sub["name"])
+            elif sc < 0.4:
+                sub["qualname"] = "Box%d.%s" % (len(subs), sub["name"])
+            elif sc < 0.6:
+                sub["qualname"] = "scope%d.<locals>.prep" % len(subs)
+                sub["pyname"] = "prep"
             if sub["ret"]["shape"] == "none" or any(it[0] in ("const", "bool") for it in ret_items(sub["ret"])) or not sub["stmts"]:
                 sub["ret"] = dict(shape="single", items=[first_var(sub)])
             subs.append(sub)
@@ -313,8 +327,8 @@ def body(prog, F, S, L, recorder=None, override=None):
             return list(items)
         return dict(zip(r["keys"], items))
 
-    run.__qualname__ = prog["name"]
-    run.__name__ = prog["name"]
+    run.__qualname__ = prog.get("qualname", prog["name"])
+    run.__name__ = prog.get("pyname", prog["name"])
     run.__signature__ = inspect.Signature([
         inspect.Parameter(p["name"], inspect.Parameter.POSITIONAL_OR_KEYWORD,
                           default=inspect.Parameter.empty if p["default"] is None else default_value(p)) for p in prog["params"]])
@@ -410,7 +424,16 @@ def default_value(p):
 def gen_args(rng, prog):
     nreq = sum(1 for p in prog["params"] if p["default"] is None)
     n = rng.randint(nreq, len(prog["params"]))
-    return [Const(60 + i, rng.random() < 0.6) for i in range(n)]
+    args = [Const(60 + i, rng.random() < 0.6) for i in range(n)]
+    # an explicit None for a defaulted parameter is a value like any other (it is not "omitted")
+    r2 = random.Random(rng.getrandbits(30))
+    # (not for a parameter that is an operand of an operator statement: `None == t` dispatches to the reflected
+    # operator of t, which the term domain does not model)
+    operands = {e[1] for st in prog["stmts"] if st["op"] == "oper" for e in st["args"] if e[0] == "param"}
+    for i in range(nreq, n):
+        if r2.random() < 0.12 and i not in operands:
+            args[i] = None
+    return args
 
 
 # ------------------------------------------------------------------------------ model side
